@@ -3,6 +3,7 @@ package c07
 
 import (
 	"context"
+	"encoding/json"
 	"fmt"
 	"os"
 	"path/filepath"
@@ -181,7 +182,33 @@ func matrixCase(c *fw.Ctx, idx int) {
 		trusted["B"], trusted["U"] = true, true
 	default:
 		opts.Consensus = "crdt"
+		// every second round the configuration goes through the JSON loader, like a
+		// service.json does; an empty trust list is then written as [], as null or not at all
+		viaJSON := idx >= 6
+		jsonShape := r.Pick("list", "null", "absent")
 		opts.CrdtTune = func(cfg *crdt.Config) {
+			if viaJSON {
+				js := map[string]interface{}{"cluster_name": cfg.ClusterName, "rebroadcast_interval": "300ms"}
+				switch kind {
+				case "crdt-list", "crdt-runtime":
+					js["trusted_peers"] = []string{peer.Encode(B.h.ID())}
+				case "crdt-all":
+					js["trusted_peers"] = []string{"*"}
+				default:
+					switch jsonShape {
+					case "list":
+						js["trusted_peers"] = []string{}
+					case "null":
+						js["trusted_peers"] = nil
+					}
+				}
+				b, _ := json.Marshal(js)
+				if err := cfg.LoadJSON(b); err != nil {
+					c.Inconclusive("crdt LoadJSON: " + err.Error())
+				}
+				c.Cover("config-via-json/" + kind + "/" + jsonShape)
+				return
+			}
 			cfg.TrustAll = false
 			cfg.TrustedPeers = nil
 			switch kind {
